@@ -437,6 +437,9 @@ Definition failure_kind (po : option params) (hs : list handler) (signer : nat -
   (fks : list fkey) (ev : event) : option gkind :=
   match ev with
   | EvAgent (PAuth _) _ _ _ => None
+  (* a request for the agent's identities changes nothing and hands nothing over: when it is refused, what the run
+     owes depends on what it does next (a dropped connection fails the requests that follow) *)
+  | EvAgent _ RList _ _ => None
   | EvAgent (PGen _) _ StOk _ => None
   | EvAgent (PGen _) _ _ _ => Some KHandlerGenCSRErr
   | EvAgent (PAdd _) _ StOk _ => None
